@@ -190,6 +190,15 @@ func genTxSpec(rt *rapid.T, nm *hx.NodeMachine, s *hx.MState, cfg genCfg, height
 		if fee.Sign() > 0 {
 			spec.Outs = append(spec.Outs, hx.OutSpec{To: -1, Amount: fee.String()})
 			rest.Sub(rest, fee)
+			// now and then a second fee output (every output addressed to the placeholder is a fee for the proposer)
+			if rest.Sign() > 0 && rapid.IntRange(0, 3).Draw(rt, "fee2") == 0 {
+				fee2 := take(rest, "fee2amt")
+				if fee2.Sign() > 0 {
+					spec.Outs = append(spec.Outs, hx.OutSpec{To: -1, Amount: fee2.String()})
+					rest.Sub(rest, fee2)
+					nm.Stat["tx-with-two-fee-outputs"]++
+				}
+			}
 		}
 	}
 	nout := rapid.IntRange(0, 3).Draw(rt, "nout")
@@ -403,6 +412,11 @@ func genPeerOn(rt *rapid.T, nm *hx.NodeMachine, cfg genCfg, parent int) hx.NOp {
 		}
 		s.Apply(tx, hx.Ring[op.Proposer].Address)
 		op.Txs = append(op.Txs, spec)
+	}
+	// now and then the award transaction has a second output (HEAD's award rule reads output 0 only: a valid block
+	// whose award mints two outputs, both part of the supply while the block is applied)
+	if rapid.IntRange(0, 7).Draw(rt, "award2") == 0 {
+		op.CBIn = 4
 	}
 	// sometimes the block arrives with a next link already filled in (the ledger has to ignore it)
 	if rapid.IntRange(0, 7).Draw(rt, "presetnext") == 0 {
@@ -677,8 +691,11 @@ func genAdvPeer(rt *rapid.T, nm *hx.NodeMachine, cfg genCfg) hx.NOp {
 			}
 		}
 	case 5:
-		op.CBIn = rapid.SampledFrom([]int{1, 2, 3, 5, 6, 7}).Draw(rt, "cbin")
+		op.CBIn = rapid.SampledFrom([]int{1, 2, 3, 5, 6, 7, 4, 4}).Draw(rt, "cbin")
 		op.Expect = "coinbase-with-input-or-write"
+		if op.CBIn == 4 {
+			op.Expect = "award-with-two-outputs"
+		}
 	case 6:
 		// the first transaction of the block is a plain transfer that its initiator did not sign
 		plain := cfg
